@@ -17,7 +17,7 @@ RULE = ("(kernel) generated parameters for Binary/Purification RBMs (n 1..4, nh 
         "current chain state. (empirical) 20000 parallel chains with the real RNG vs row v0 of T_ref^k, Hoeffding+union bound "
         "threshold (false-alarm prob <= 1e-12 per case). Non-trivial = all biases non-zero, nh != nv or na != nv, k >= 1, and for "
         "histories some uniform fell on each side of its probability.")
-RULE_EXT = ('Extended as built: the start state seen by the kernel is learned from a spy on gibbs_steps; results of earlier calls are held and re-verified after later calls; float32 start states; default start must be random and of the right shape; effective_energy(v, a) with explicit auxiliary units.')
+RULE_EXT = ('Extended as built: the start state seen by the kernel is learned from a spy on gibbs_steps; results of earlier calls are held and re-verified after later calls; float32 start states; default start must be random and of the right shape; effective_energy(v, a) with explicit auxiliary units. Rounds 5-6: the public sample_h_given_v / sample_v_given_h / sample_a_given_v / sample_v_given_ha called directly without and with out= under the scripted Bernoulli monitor; num_aux = 0.')
 RULE = RULE + " " + RULE_EXT
 ASSUMPTIONS = ["(history) the implementation draws through torch.bernoulli; if the monitor sees no call for k>0 it declares itself "
                "inapplicable instead of raising", "(empirical) power limited to deviations >= ~3% in some state probability",
@@ -68,8 +68,8 @@ def check_kernel(sc):
         pa = rbm.prob_a_given_v(V.clone()).double()
         Pa = product_table(pa, A)
         Plat = (Ph[:, :, None] * Pa[:, None, :]).reshape(2 ** n, -1)
-        hh = H[:, None, :].expand(-1, A.shape[0], -1).reshape(-1, sc["nh"])
-        aa = A[None, :, :].expand(H.shape[0], -1, -1).reshape(-1, sc["na"])
+        hh = H[:, None, :].expand(-1, A.shape[0], -1).reshape(H.shape[0] * A.shape[0], sc["nh"])
+        aa = A[None, :, :].expand(H.shape[0], -1, -1).reshape(H.shape[0] * A.shape[0], sc["na"])
         pv = rbm.prob_v_given_ha(hh.clone(), aa.clone()).double()
         # effective energy with the auxiliary configuration given explicitly: -log sum_h w(v, h, a)
         am_ = R.net_from_case(sc["am"])
